@@ -562,6 +562,17 @@ private:
 		if(!f.cancelation_is_needed_with_data_mutex_locked())
 			return;
 		if(polling_ || !reactor_.get() || !dispatch_queue_.empty() || queued_requests_ > 0) {
+			if(!polling_ && reactor_.get() && f.fd != interrupter_.get_fd() && map_.is_valid(f.fd)) {
+				// The descriptor may be closed and its number given to another one before the queued
+				// request runs, poll and select would then report the new descriptor's events to the
+				// handlers that are being cancelled: take it out of the reactor right now
+				io_data &cont = map_[f.fd];
+				if(cont.current_event != 0) {
+					cont.current_event = 0;
+					system::error_code e;
+					reactor_->remove(f.fd,e);
+				}
+			}
 			f.queued_ = true;
 			queued_requests_++;
 			dispatch_queue_.push_back(completion_handler(f));
